@@ -34,8 +34,8 @@ CLAIMS = {
     note=TB + "Bounds: slider loops in the validators bounded by <= 4 (quick) / 8 and 16 (thorough) aligned sliders. The FEN text route is decided only at field level (C08).",
     design="DESIGN.md §3 C06"),
  "C08": dict(technique="Kani/CBMC over the real private field parsers (hook) on every valid UTF-8 string up to 3/5/6 bytes",
-    text="Claimed at the field layer only: side, castling (both notations, any king squares), en-passant and both clock parsers accept exactly their grammar, write exactly the denoted value, reject the empty field and never panic, for every string up to the stated length. Record splitting, error naming across fields and full placement decoding are outside the claim (measured out of reach).",
-    note="Bounds: strings <= 3 (side, ep), <= 5 (castling), <= 6 (clocks) bytes; placement field only attempted on <= 3 bytes in the thorough tier. Trusted: Kani/CBMC, core::str as compiled.",
+    text="Claimed at the field layer only: side, castling (both notations, any king squares), en-passant and both clock parsers accept exactly their grammar, write exactly the denoted value, reject the empty field and never panic, for every string up to the stated length; the placement parser rejects every string of <= 2 (quick) / <= 3 (thorough) bytes, which cannot denote eight ranks. Record splitting, error naming across fields and full placement decoding are outside the claim (measured out of reach).",
+    note="Bounds: strings <= 3 (side, ep), <= 5 (castling), <= 6 (clocks), <= 2/3 (placement) bytes. The placement queries replace core::slice::memchr::{memchr,memrchr} by their definitions (environment stub). Trusted: Kani/CBMC, core::str as compiled.",
     design="DESIGN.md §3 C08"),
  "C09": dict(technique="Kani/CBMC: build() sequencing and error attribution on a fully symbolic builder (validators stubbed by reference predicates); from_board on accepted boards; field parsers vs the same writers",
     text="Builder side in full: build() succeeds exactly on accepted states, the board's fields equal the builder's content, and the error names the first wrong aspect (incl. ep square on the wrong rank, right on the wrong side of the king, three checkers); from_board reproduces position and clocks. Parser side at field level only (C08).",
